@@ -20,7 +20,7 @@ from egsim.seams import InjectedFault, WarningsAsErrors
 from egsim.props.c17 import ARG_POOL, decode_arg
 from edgegraph.structure import singleton
 
-CLASS_NAMES = ["T", "T1", "T2", "S", "F", "Z", "D", "P", "P1", "R", "K", "K1"]
+CLASS_NAMES = ["T", "T1", "T2", "S", "F", "Z", "D", "P", "P1", "R", "K", "K1", "Q"]
 # classes whose __init__ accepts only (name="k", *, verbose=False)
 RESTRICTIVE = ("K", "K1")
 
@@ -112,9 +112,11 @@ def make_classes(hook=None):
         ns["__init__"] = __init__
         return ns
 
+    # a class whose instances accept no attributes beyond the ones it declares
+    Q = M("Q", (object,), body("Q", __slots__=("init_count", "init_args", "token")))
     K = M("K", (object,), restrictive("K"))
     K1 = M("K1", (K,), restrictive("K1"))
-    return {"T": T, "T1": T1, "T2": T2, "S": S, "F": F, "Z": Z, "D": D, "P": P, "P1": P1, "R": R, "K": K, "K1": K1}
+    return {"T": T, "T1": T1, "T2": T2, "S": S, "F": F, "Z": Z, "D": D, "P": P, "P1": P1, "R": R, "K": K, "K1": K1, "Q": Q}
 
 
 class St:
